@@ -23,6 +23,16 @@ def sig(path):
     return [t for t in path if not is_io_plumbing(t)]
 
 
+def param_on_path(p, name):
+    """True / False when the path is taken only with that value of the bool parameter, None when it does not depend on it"""
+    for t in p:
+        if t[0] == "probe" and isinstance(t[1], tuple) and t[1] and t[1][0] == "params":
+            for n, v in t[1][1:]:
+                if n == name:
+                    return None if v is None else bool(v)
+    return None
+
+
 def format_adt(prog):
     for k, a in prog.adts.items():
         if a["pretty"].endswith("chunk_header::ChunkHeaderFormat"):
@@ -95,7 +105,15 @@ class ChunkModel:
     def _writer(self):
         env, prog = self.env, self.prog
         ac = self.b["add_chunk"]
-        tr = grammar.trace(env, ac.key, "w")
+        def flags(it, S):
+            # what the path's state knows about the truth of each bool parameter (however the test on it was written)
+            out = []
+            for i in range(1, ac.arg_count + 1):
+                if ac.locals[i]["t"].get("k") == "bool":
+                    d = S.dom(State().read((it.L(i), ())))
+                    out.append((ac.locals[i].get("name"), d.lo if d.lo == d.hi else None))
+            return ("params",) + tuple(out)
+        tr = grammar.trace(env, ac.key, "w", probe=flags)
         self.add_chunk_paths = [sig(p) for p in grammar.ok_paths(tr)]
         # sequence of emitter helpers (local callees that receive the byte sink), identical on every Ok path
         seqs = set()
